@@ -62,6 +62,22 @@ def use_handler(kind, h):
     return h(2) if kind == 0 else (len(h), list(h))
 
 
+def kwargs_for(k):
+    """keyword operands of the call to node k: none / two plain ones / a wider set (names that look like parameters of rpyc's own
+    wrappers, a value by reference, a nested tuple) / one named like the proxy method's own first parameter"""
+    if not k["kw"]:
+        return {}
+    if k["kw"] is True:
+        return {"extra": k["id"], "flag": True}
+    if k["kw"] == "wide":
+        return {"extra": k["id"], "args": (k["id"], "x"), "kwargs": None, "callback": [k["id"]], "timeout": 0, "name": "n%d" % k["id"], "zeta": 1, "alpha": 2}
+    return {"_self": k["id"], "extra": 1}
+
+
+def has_self_kw(t):
+    return any(k["kw"] == "_self" and k["side"] != t["side"] or has_self_kw(k) for k, _ in t["kids"])
+
+
 def gen_tree(r, depth, counter, side=None):
     counter[0] += 1
     nid = counter[0]
@@ -71,7 +87,7 @@ def gen_tree(r, depth, counter, side=None):
         for _ in range(r.choice([0, 1, 1, 2, 2, 3, 4]) if depth > 1 else r.choice([0, 1, 2])):
             kids.append((gen_tree(r, depth - r.choice([1, 1, 2]), counter), r.random() < 0.5))
     return {"side": side, "id": nid, "kids": kids, "raises": r.random() < 0.25,
-            "payload_seed": r.randrange(10**6), "kw": r.random() < 0.5}
+            "payload_seed": r.randrange(10**6), "kw": r.choice([False, True, True, "wide", "wide", "_self"] if r.random() < 0.9 else ["_self"])}
 
 
 def tree_sx(t):
@@ -103,14 +119,14 @@ def run_local(root):
 
     def run(t, value, ref, pt=None, fn=None, h=None, **kw):
         w.log.append(t["id"])
-        w.shapes.append((t["id"], canon(value), list(ref), sorted(kw.items()), (pt.x, pt.y, pt.__class__.__name__) if pt is not None else None, fn(3) if fn is not None else None,
+        w.shapes.append((t["id"], canon(value), list(ref), [(a_, list(b_) if isinstance(b_, list) or hasattr(b_, "____id_pack__") else b_) for a_, b_ in kw.items()], (pt.x, pt.y, pt.__class__.__name__) if pt is not None else None, fn(3) if fn is not None else None,
                          use_handler(t["id"] % 2, h)))
         ref.append(t["id"])                     # a change through the reference is a change to the caller's object
         acc = 0
         for k, c in t["kids"]:
             box = [k["id"] * 7]
             try:
-                kwargs = {"extra": k["id"], "flag": True} if k["kw"] else {}
+                kwargs = kwargs_for(k)
                 v = run(k, w.payload(k), box, Point(k["id"], -1), (lambda z, kid=k["id"]: z + kid), make_handler(k["id"] % 2), **kwargs)
                 acc += v
                 assert box[-1] == k["id"]
@@ -151,13 +167,13 @@ def run_remote(root):
             hres = use_handler(t["id"] % 2, h)
         except Exception as e:
             hres = ("raised", type(e).__name__)
-        w.shapes.append((t["id"], canon(value), list(ref), sorted(kw.items()), (pt.x, pt.y, pt.__class__.__name__) if pt is not None else None, fn(3) if fn is not None else None, hres))
+        w.shapes.append((t["id"], canon(value), list(ref), [(a_, list(b_) if isinstance(b_, list) or hasattr(b_, "____id_pack__") else b_) for a_, b_ in kw.items()], (pt.x, pt.y, pt.__class__.__name__) if pt is not None else None, fn(3) if fn is not None else None, hres))
         ref.append(t["id"])
         acc = 0
         for k, c in t["kids"]:
             box = [k["id"] * 7]
             try:
-                kwargs = {"extra": k["id"], "flag": True} if k["kw"] else {}
+                kwargs = kwargs_for(k)
                 pt, fn, h = Point(k["id"], -1), (lambda z, kid=k["id"]: z + kid), make_handler(k["id"] % 2)
                 if k["side"] == side:
                     v = run(k, side, w.payload(k), box, pt, fn, h, **kwargs)
@@ -346,9 +362,14 @@ def run(ctx):
             same = (lo[1] == ro[1] and tuple(lo[2]) == tuple(ro[2]))
         else:
             same = lo == ro
-        if not same:
+        if not same and has_self_kw(root):
+            ctx.violation("keyword-named-_self-collides-with-the-proxy-method", case, observed=ro, expected=lo,
+                          what="a remote call with a keyword operand named `_self` fails with TypeError (the proxy's method wrapper takes its own first parameter by that name); locally it is an ordinary keyword")
+        elif not same:
             ctx.violation("distributed-result-differs-from-local", case, observed=ro, expected=lo, what="the outermost result/exception of the two-peer run differs from the one-process run")
-        if lw.log != rw.log:
+        if has_self_kw(root):
+            pass          # everything downstream of the refused call differs too: reported once, above
+        elif lw.log != rw.log:
             ctx.violation("invocation-log-differs", case, observed=rw.log[:40], expected=lw.log[:40], what="callees were not invoked exactly once each in the local order")
         elif lw.shapes != rw.shapes:
             bad = [(a, b) for a, b in zip(lw.shapes, rw.shapes) if a != b][:1]
